@@ -702,7 +702,7 @@ def execute(plan, keep_log=False):
             got, outcome = read_back(w, device, cfg, cfg["reader"], cfg["delivery"], gz, tag=tagbase)
             evals += 1
             vs, exp_idx, clean = judge(mode, attempted, acked, ref_frames, plain, got, outcome, policy)
-            w.log("read", tagbase, cfg["reader"], "len=%d" % len(device), "->", outcome, "n=%d" % len(got), "exp=%d" % len(exp_idx), "clean" if clean else "")
+            w.log("read", tagbase, cfg["reader"], "len=%d" % len(device), "->", "end" if outcome == "end" else "raise", "n=%d" % len(got), "exp=%d" % len(exp_idx), "clean" if clean else "")
             add_viol(vs, fault)
             kind, phase = phase_of(len(plain), ref_spans, ref_kinds) if policy != "continue" else ("?", "?")
             if probe_phase and policy != "continue":
@@ -710,7 +710,7 @@ def execute(plan, keep_log=False):
                     w.probe("cut-on-boundary")
                 elif kind in ("HEADER", "DESC", "REC"):
                     w.probe("cut-in-%s-%s" % ({"HEADER": "header", "DESC": "desc", "REC": "rec"}[kind], phase))
-            ocls = "end" if outcome == "end" else ("raise:" + outcome)
+            ocls = "end" if outcome == "end" else "raise"
             states.add("|".join([mode, cfg["stack"], cfg["reader"], kind, phase, ocls, str(min(len(got), 3))]))
             if variance:
                 got2, outcome2 = read_back(w, device, cfg, cfg["variance_reader"], cfg["variance_delivery"], gz, tag=tagbase + "v")
@@ -719,7 +719,7 @@ def execute(plan, keep_log=False):
                     add_viol([_viol("C04.delivery-variance", "same bytes, reader %s/%s yields %d records then %s; reader %s/%s yields %d then %s" % (
                         cfg["reader"], cfg["delivery"], len(got), outcome, cfg["variance_reader"], cfg["variance_delivery"], len(got2), outcome2),
                         {"a": len(got), "b": len(got2)})], fault)  # fmt: skip
-                states.add("|".join([mode, cfg["stack"], "var:" + cfg["variance_reader"], kind, phase, "end" if outcome2 == "end" else "raise:" + outcome2]))
+                states.add("|".join([mode, cfg["stack"], "var:" + cfg["variance_reader"], kind, phase, "end" if outcome2 == "end" else "raise"]))
             if read_err is not None and cfg["reader"] != "bytesio":
                 got3, outcome3 = read_back(w, device, cfg, cfg["reader"], cfg["delivery"], gz, read_error_at=read_err, tag=tagbase + "e")
                 evals += 1
@@ -740,8 +740,8 @@ def execute(plan, keep_log=False):
                 evals += 1
                 want = [run.attempted[i] for i in run.returned]
                 has_header = len(ref_frames) > 0
-                w.log("read", "faultfree", cfg["reader"], "->", outcome, len(got), len(want))
-                states.add("|".join(["faultfree", cfg["stack"], cfg["reader"], outcome, str(min(len(got), 3))]))
+                w.log("read", "faultfree", cfg["reader"], "->", "end" if outcome == "end" else "raise", len(got), len(want))
+                states.add("|".join(["faultfree", cfg["stack"], cfg["reader"], "end" if outcome == "end" else "raise", str(min(len(got), 3))]))
                 if has_header and (got != want or outcome != "end"):
                     add_viol([_viol("C04.faultfree-roundtrip", "no fault injected: wrote %d records, closed; reader yielded %d then %s" % (len(want), len(got), outcome),
                                     {"want": len(want), "got": len(got), "outcome": outcome})], None)  # fmt: skip
